@@ -50,12 +50,12 @@ ASSUMPTIONS = [
 BOUNDS = {
     "quick": (
         "methods {Mpfa, Mpsa, Biot}; split: C(3,3), C(4,2), T(2,2), C(5,3), T(3,2); variants {mixed, all-Dirichlet}; "
-        "inverter {python, numba}; k = 1..num_cells, max_memory -> 2, 3 parts. partial (python inverter, mixed variant): "
+        "inverter {python, numba} (numba: mixed variant only); k = 1..num_cells, max_memory -> 2, 3 parts. partial (python inverter, mixed variant): "
         "C(3,3), C(4,2), T(2,2): every single cell, every pair of cells, every single face, every single node, node set of "
         "every cell; routes 1, 2 (all families) and 3 (cells, faces); C(4,4): every single cell and face, routes 1-3."
     ),
     "thorough": (
-        "quick + 3-d grids C(2,2,2), Tet(1,1,1), Tet(2,1,1) for split and partial (single cells/faces/nodes, pairs of "
+        "quick + numba inverter for the all-Dirichlet variant + 3-d grids C(2,2,2), Tet(1,1,1), Tet(2,1,1) for split and partial (single cells/faces/nodes, pairs of "
         "cells); every cell subset of C(3,3), C(4,2), T(2,2) (routes 1-3); partial with the numba inverter for single "
         "cells; C(4,4) split."
     ),
@@ -181,6 +181,8 @@ def cases(tier):
         for gk in split_grids:
             for variant in (0, 1):
                 for inv in ("python", "numba"):
+                    if tier == "quick" and inv == "numba" and variant == 1:
+                        continue
                     out.append({"part": "split", "method": m, "grid": gk, "variant": variant, "inv": inv})
     pgrids = ["C33", "C42", "T22"]
     for m in METHODS:
